@@ -88,7 +88,7 @@ def exclude_known(case):
 
 
 def cases(tier):
-    return st.fixed_dictionaries({"doc": rd.doc_strategy(inline_kinds=INLINE, ref_pars=True).map(rd.fill_benign),
+    return st.fixed_dictionaries({"doc": rd.doc_strategy(inline_kinds=INLINE, ref_pars=True, mixed_index=True).map(rd.fill_benign),
                                   "cfg": config()}).map(exclude_known)
 
 
